@@ -406,9 +406,15 @@ def substitute_type_args(etype, type_map,
         tp: type_args[i]
         for i, tp in enumerate(etype.t_constructor.type_parameters)
     }
+    old_supertypes = etype.t_constructor.supertypes
     type_con = perform_type_substitution(
         etype.t_constructor, new_type_map, cond)
-    return ParameterizedType(type_con, type_args)
+    ptype = ParameterizedType(type_con, type_args)
+    # As in TypeConstructor.new(): the constructor kept inside the new type
+    # must carry the declared (unsubstituted) supertypes, otherwise a later
+    # instantiation through ptype.t_constructor inherits stale type arguments.
+    ptype.t_constructor.supertypes = old_supertypes
+    return ptype
 
 
 def substitute_type(t, type_map):
